@@ -430,6 +430,12 @@ func explore(c *mcx.Ctx, cs Case, bound int) (viol map[string]found, ex *mcx.Exp
 	ex = &mcx.Explorer{Bound: bound, FullAt: fullAt, MaxExec: 200000}
 	defer func() {
 		if r := recover(); r != nil && r != "stuck" {
+			if msg := fmt.Sprint(r); strings.HasPrefix(msg, "mcx: replay divergence") {
+				// the same choices did not lead to the same points: something the scheduler does not own (a goroutine
+				// the operation starts itself) takes part - the auxiliary pass alone covers this combination
+				c.Cap(fmt.Sprintf("scheduled exploration of %v given up: not deterministic under the scheduler (%s)", cs.Threads, msg))
+				return
+			}
 			panic(r)
 		}
 	}()
@@ -501,6 +507,8 @@ func run(c *mcx.Ctx) {
 		if c.Thorough() {
 			bound = 3
 		}
+		crashSig := "C16|crash|" + strings.Join(append(append([]string{}, cs.Threads[0]...), cs.Threads[len(cs.Threads)-1]...), "+")
+		c.Current(crashSig, fmt.Sprintf("the process died while operations %v ran under the scheduler", cs.Threads), Case{Threads: cs.Threads, Oracle: crashSig})
 		viol, ex, points := explore(c, cs, bound)
 		c.Impl(ex.Executions)
 		c.Step(ex.Executions, ex.PointsSeen)
@@ -538,6 +546,14 @@ func replay(c *mcx.Ctx, raw json.RawMessage) (string, string) {
 	if err := json.Unmarshal(raw, &cs); err != nil {
 		return "bad case: " + err.Error(), ""
 	}
+	if strings.HasPrefix(cs.Oracle, "C16|crash") {
+		// the worker process died while exploring this combination: the executions are repeated; a defect that
+		// kills the process (e.g. the runtime's "concurrent map writes") ends this replay the same way
+		for i := 0; i < 300; i++ {
+			execute(c, cs, mcx.NewReplay(nil, fullAt))
+		}
+		return "300 executions of the combination without a crash", ""
+	}
 	want := solo(c, cs)
 	got, s := execute(c, cs, mcx.NewReplay(cs.Choices, fullAt))
 	all := judgeAll(cs, want, got, s)
@@ -554,7 +570,7 @@ func replay(c *mcx.Ctx, raw json.RawMessage) (string, string) {
 
 func init() {
 	mcx.Register(&mcx.Driver{
-		ID: "C16", Run: run, Replay: replay,
+		ID: "C16", Run: run, Replay: replay, CrashIsViolation: true, KernelScheduled: true,
 		Rule: "operation multisets: every unordered pair of 16 operations on private data (RecordArtifacts on a plain tree / a 128 KiB file with two hash algorithms / file symlink / followed directory symlink / true cycle / a link reached on two ways; InTotoRun; sign+verify; dump+load; key loading; InTotoVerifyWithDirectory of a private chain; VerifyArtifacts; SubstituteParameters; a DSSE envelope with control characters set, signed, dumped and loaded; VerifyArtifacts with a malformed pattern never used before) as 2 threads x 1 operation, 2 threads x 2 operations over a sub-menu (thorough: larger sub-menu and 3 threads x 1 recording operation); " +
 			"for each, EVERY schedule with at most 2 (thorough 3) preemptions, where scheduling points are all accesses to every package-level variable of package in_toto (discovered by the overlay rewriter, so a hoisted buffer or cache becomes a point automatically) all sync.Mutex/RWMutex/Once/Map operations (every schedule starts from a cold package: the overlay's reset seam puts package-level state back to its initialisers, so lazily built state is built under the scheduler), and every file-system call of the package (os, path/filepath, io/ioutil functions taking a path: the overlay's file-system seam) on a path outside the directory prepared for the running operation - such a path is a shared object like a variable; oracle per schedule: no two conflicting accesses unordered by happens-before (vector clocks over the shimmed sync operations), no deadlock or panic, and every operation's result equals the result of the same operation made alone. states = executions, transitions = points passed.",
 		Assumptions: []string{
